@@ -703,6 +703,40 @@ def r8(prog, ctx, markers):
     ctx.extra["marker_suffixes"] = sorted(sufs)
 
 
+def r10(prog, ctx, kinds):
+    """A marker vouches for finished work: it must not come into existence before that work is done.  `with open(<marker>, "w"): <work>`
+    creates the file first and does the work afterwards."""
+    marker_fns = {k for k in kinds if not k.startswith(("suffix:", "expr:"))}
+    marker_fns |= {q_ for q_ in prog.module(DSP).functions if "." not in q_ and "lock" in q_ and "name" in q_}     # the marker-name helpers, by name
+    n = 0
+    for m, q, f in prog.all_functions():
+        if m.rel != DSP:
+            continue
+        for w in walk_no_nested(f):
+            if not isinstance(w, ast.With):
+                continue
+            for it in w.items:
+                c = it.context_expr
+                if isinstance(c, ast.Call) and call_name(c) == "open" and len(c.args) > 1 and isinstance(c.args[1], ast.Constant) \
+                        and "w" in str(c.args[1].value):
+                    path = c.args[0]
+                    if isinstance(path, ast.Name):
+                        ds = [a.value for a in walk_no_nested(f) if isinstance(a, ast.Assign) and len(a.targets) == 1 and src(a.targets[0]) == path.id]
+                        path = ds[-1] if ds else path
+                    ptxt = src(path)
+                    is_marker = any(k + "(" in ptxt for k in marker_fns) or ptxt.endswith('"_lock"') or ptxt.endswith("'_lock'")
+                    if not is_marker:
+                        continue
+                    n += 1
+                    work = [x for x in w.body if not isinstance(x, ast.Pass)]
+                    if work:
+                        ctx.fail("R10", w, q, src(w)[:90], "the progress marker %s is created when the with-block is entered, i.e. BEFORE %s runs: a run "
+                                 "killed inside the block leaves a marker that vouches for unfinished work, and --resume skips it" % (ptxt[:60], src(work[0])[:50]))
+                    else:
+                        ctx.ok("R10", "%s:%d" % (m.rel, w.lineno), "marker %s created by an empty with-block" % ptxt[:50])
+    ctx.ok("R10", DSP, "%d marker files opened as context managers, none with work inside" % n, nontrivial=False)
+
+
 # what collect_reads_in_parallel hands back per chromosome, and the per-chromosome file (by the literal tail of its name) that carries it
 # across a kill: confirmed by reading the function; position in the returned tuple -> (what it is, file-name tail)
 RESTORE_TABLE = [(0, "read groups seen on the chromosome", "_groups"),
@@ -871,6 +905,9 @@ def run(prog, ctx):
     r6(prog, ctx, stage_markers)
     r7(prog, ctx)
     r8(prog, ctx, stage_markers)
+    ctx.rule("R10", "no progress marker is opened for writing as the context manager of a block that still does work (the marker would exist "
+                    "before the work it vouches for is finished)")
+    r10(prog, ctx, kinds)
     ctx.assume("byte-equality of recomputed outputs, the .params pickle and external tools are not decided")
     ctx.assume("CPython reference counting is NOT assumed: __del__ and implicit closing of unreferenced files count as 'late'")
     ctx.assume("the read-mapping stage (minimap2) is outside the analysed closure's resume protocol")
